@@ -9,7 +9,7 @@ def run(ctx, only=None):
     args = ['--seed=%d' % ctx.seed] + (['--random=2000', '--exhaustive_len=5'] if ctx.tier == 'quick' else ['--random=100000', '--exhaustive_len=7'])
     recs, rc, err = libmon.run_bin(bindir, 'c17_agg', args)
     ctx.rule = ('min, max, sum, count (under exact / unknown / inexact / loose size_hints), mean, not, percentile(p) for p in {0,1,25,50,75,99,99.999,100} + random p, called on ALL '
-                'sequences of length 0..L over {-2..2} (every multiset in every order) and on random multisets up to 1000 elements; each call under catch_unwind; oracle = definitions '
+                'sequences of length 0..L over {-2..2} (every multiset in every order) and on random multisets up to 1000 elements; each call under catch_unwind; plus a percentile rank sweep: n distinct values for every n in 0..=200 x every p that is a multiple of 0.25 in [0,100] against the exact integer rank floor(n*p/100); oracle = definitions '
                 'over a sorted copy (percentile: the element of rank floor(len*p/100) clamped to the last, the only total reading at p = 100). case = one input multiset; '
                 'non-trivial = non-empty input; distinct = distinct inputs')
     ctx.assumptions = ['oracle definitions in harness/libmon/src/bin/c17_agg.rs']
@@ -19,7 +19,7 @@ def run(ctx, only=None):
         if 'inputs' in r:
             ctx.evaluations += r['calls']
             ctx.nontrivial.update(range(r['inputs'] - 1))
-            ctx.cov.update({'inputs': r['inputs'], 'exhaustive_inputs': r['exhaustive_inputs'], 'aggregator_calls': r['calls']})
+            ctx.cov.update({'inputs': r['inputs'], 'exhaustive_inputs': r['exhaustive_inputs'], 'aggregator_calls': r['calls'], 'percentile_rank_sweep_points': r['percentile_rank_sweep']})
             ctx.sample(r)
     for v in [r for r in recs if r.get('violation')]:
         ctx.violation('agg_%s' % v['what'], {'case': v['what'], 'witness': v['witness'], 'summary': '%s: %s' % (v['what'], v['witness'])}, {'what': v['what']})
